@@ -1,57 +1,81 @@
-(* C05/ProofsRange.v — range(a, b, c) yields exactly Python's range. *)
+(* C05/ProofsRange.v — range(a, b, c) yields exactly Python's range, for ALL i64 triples. *)
 From Verif Require Import Base.I64 Base.Tactics Gen.StdIter C05.Model C05.ProofsSpec.
 From Coq Require Import ZifyBool ZifyNat.
 Open Scope Z_scope.
 
-Lemma range_no_ovf_step a b c :
-  c <> 0 -> range_no_ovf a b c -> (if c >? 0 then a <? b else a >? b) = true ->
-  in_i64 (a + c) /\ range_no_ovf (a + c) b c.
+Lemma chk64_in z : in_i64 z -> chk64 z = Some z.
+Proof. intros H. unfold chk64. apply in_i64b_spec in H. now rewrite H. Qed.
+Lemma chk64_out z : ~ in_i64 z -> chk64 z = None.
 Proof.
-  intros Hc (Ha & Hb & Hci & Hpos & Hneg) Hcond. unfold range_no_ovf. i64_facts.
-  destruct (c >? 0) eqn:E.
-  - specialize (Hpos ltac:(lia)). repeat split; lia.
-  - specialize (Hneg ltac:(lia)). repeat split; lia.
+  intros H. unfold chk64. destruct (in_i64b z) eqn:E; [|reflexivity].
+  apply in_i64b_spec in E. contradiction.
 Qed.
 
-Lemma range_take_spec m c : c <> 0 -> forall n a b,
-  range_no_ovf a b c ->
-  range_take n m a b c =
-  Val (firstn n (py_range_list a b c), Nat.leb (length (py_range_list a b c)) n).
+(* one step of the generated PyRange::next, as equations *)
+Lemma next_stop a b c :
+  c <> 0 -> (if c >? 0 then a >=? b else a <=? b) = true ->
+  stdlib_PyRange_next a b c = ((a, b, c), None).
 Proof.
-  intros Hc. induction n as [|n IH]; intros a b Hno.
-  - cbn [range_take]. unfold stdlib_PyRange_next. cbv beta iota zeta delta [bind].
-    destruct (c >? 0) eqn:Ec.
-    + destruct (a >=? b) eqn:Eab.
-      * rewrite range_list_nil by (apply range_len_up_stop; lia). reflexivity.
-      * destruct (range_no_ovf_step a b c Hc Hno) as [Hin _]; [rewrite Ec; lia|].
-        unfold add64. rewrite ovf_ok by assumption. cbv beta iota.
-        rewrite (range_list_cons a b c) by (apply range_len_up_step; lia). reflexivity.
-    + destruct (a <=? b) eqn:Eab.
-      * rewrite range_list_nil by (apply range_len_down_stop; lia). reflexivity.
-      * destruct (range_no_ovf_step a b c Hc Hno) as [Hin _]; [rewrite Ec; lia|].
-        unfold add64. rewrite ovf_ok by assumption. cbv beta iota.
-        rewrite (range_list_cons a b c) by (apply range_len_down_step; lia). reflexivity.
-  - cbn [range_take]. unfold stdlib_PyRange_next. cbv beta iota zeta delta [bind].
-    destruct (c >? 0) eqn:Ec.
-    + destruct (a >=? b) eqn:Eab.
-      * rewrite range_list_nil by (apply range_len_up_stop; lia). reflexivity.
-      * destruct (range_no_ovf_step a b c Hc Hno) as [Hin Hno']; [rewrite Ec; lia|].
-        unfold add64. rewrite ovf_ok by assumption. cbv beta iota.
+  intros Hc H. unfold stdlib_PyRange_next.
+  destruct (c >? 0) eqn:E; rewrite H; reflexivity.
+Qed.
+Lemma next_go a b c :
+  c <> 0 -> (if c >? 0 then a >=? b else a <=? b) = false ->
+  stdlib_PyRange_next a b c =
+  ((match chk64 (a + c) with Some v => v | None => b end, b, c), Some a).
+Proof.
+  intros Hc H. unfold stdlib_PyRange_next.
+  destruct (c >? 0) eqn:E; rewrite H; reflexivity.
+Qed.
+
+Lemma range_take_spec c : c <> 0 -> in_i64 c -> forall n a b, in_i64 a -> in_i64 b ->
+  range_take n a b c =
+  (firstn n (py_range_list a b c), Nat.leb (length (py_range_list a b c)) n).
+Proof.
+  intros Hc Hci. induction n as [|n IH]; intros a b Ha Hb.
+  - cbn [range_take].
+    destruct (if c >? 0 then a >=? b else a <=? b) eqn:Hs.
+    + rewrite next_stop by assumption.
+      rewrite range_list_nil; [reflexivity|].
+      destruct (c >? 0) eqn:E; [apply range_len_up_stop|apply range_len_down_stop]; lia.
+    + rewrite next_go by assumption.
+      rewrite (range_list_cons a b c); [reflexivity|].
+      destruct (c >? 0) eqn:E; [apply range_len_up_step|apply range_len_down_step]; lia.
+  - cbn [range_take].
+    destruct (if c >? 0 then a >=? b else a <=? b) eqn:Hs.
+    + rewrite next_stop by assumption.
+      rewrite range_list_nil; [reflexivity|].
+      destruct (c >? 0) eqn:E; [apply range_len_up_stop|apply range_len_down_stop]; lia.
+    + rewrite next_go by assumption.
+      assert (Hcons : py_range_list a b c = a :: py_range_list (a + c) b c).
+      { apply range_list_cons.
+        destruct (c >? 0) eqn:E; [apply range_len_up_step|apply range_len_down_step]; lia. }
+      rewrite Hcons. cbn [firstn length Nat.leb].
+      destruct (Z_le_dec MIN64 (a + c)) as [Hlo|Hlo]; [destruct (Z_le_dec (a + c) MAX64) as [Hhi|Hhi]|].
+      * (* next value fits *)
+        rewrite chk64_in by (split; assumption).
+        rewrite IH by (try assumption; split; assumption). reflexivity.
+      * (* overflow upward: c > 0; Python's range is exhausted as well since a + c > MAX >= b *)
+        rewrite chk64_out by (unfold in_i64; lia).
+        assert (Hcpos : c > 0) by (i64_facts; lia).
         rewrite IH by assumption.
-        rewrite (range_list_cons a b c) by (apply range_len_up_step; lia). reflexivity.
-    + destruct (a <=? b) eqn:Eab.
-      * rewrite range_list_nil by (apply range_len_down_stop; lia). reflexivity.
-      * destruct (range_no_ovf_step a b c Hc Hno) as [Hin Hno']; [rewrite Ec; lia|].
-        unfold add64. rewrite ovf_ok by assumption. cbv beta iota.
+        rewrite (range_list_nil b b c) by (apply range_len_up_stop; lia).
+        rewrite (range_list_nil (a + c) b c) by (apply range_len_up_stop; i64_facts; lia).
+        destruct n; reflexivity.
+      * (* overflow downward: c < 0 *)
+        rewrite chk64_out by (unfold in_i64; lia).
+        assert (Hcneg : c < 0) by (i64_facts; lia).
         rewrite IH by assumption.
-        rewrite (range_list_cons a b c) by (apply range_len_down_step; lia). reflexivity.
+        rewrite (range_list_nil b b c) by (apply range_len_down_stop; lia).
+        rewrite (range_list_nil (a + c) b c) by (apply range_len_down_stop; i64_facts; lia).
+        destruct n; reflexivity.
 Qed.
 
 Lemma range_spec n m a b c :
-  c <> 0 -> range_no_ovf a b c ->
+  c <> 0 -> in_i64 a -> in_i64 b -> in_i64 c ->
   range n m a b c = OVal (firstn n (py_range_list a b c), Nat.leb (length (py_range_list a b c)) n).
 Proof.
-  intros Hc Hno. unfold range. replace (c =? 0) with false by lia.
+  intros Hc Ha Hb Hci. unfold range. replace (c =? 0) with false by lia.
   now rewrite range_take_spec.
 Qed.
 
@@ -60,11 +84,11 @@ Proof. reflexivity. Qed.
 
 (* closed form: the k-th yielded value, without enumerating *)
 Lemma range_nth (k : nat) n m a b c :
-  c <> 0 -> range_no_ovf a b c -> (k < n)%nat ->
+  c <> 0 -> in_i64 a -> in_i64 b -> in_i64 c -> (k < n)%nat ->
   exists l fin, range n m a b c = OVal (l, fin) /\
     nth_error l k = if Z.of_nat k <? py_range_len a b c then Some (a + Z.of_nat k * c) else None.
 Proof.
-  intros Hc Hno Hk. eexists _, _. split; [apply range_spec; assumption|].
+  intros Hc Ha Hb Hci Hk. eexists _, _. split; [apply range_spec; assumption|].
   rewrite <- range_list_nth.
   generalize (py_range_list a b c). intros l.
   revert k Hk. revert l. induction n as [|n IH]; intros l k Hk; [lia|].
